@@ -544,24 +544,14 @@ fn subtype_(
         let mark = trail.len();
         trail.push((t1.clone(), t2.clone()));
         let res = match (t1.as_ref(), t2.as_ref()) {
-            (Var(id), _) => subtype_(
-                report,
-                gamma,
-                env,
-                env.rec_find_type_with_depth(id, depth).unwrap(),
-                t2,
-                depth,
-                trail,
-            ),
-            (_, Var(id)) => subtype_(
-                report,
-                gamma,
-                env,
-                t1,
-                env.rec_find_type_with_depth(id, depth).unwrap(),
-                depth,
-                trail,
-            ),
+            (Var(id), _) => match env.rec_find_type_with_depth(id, depth) {
+                Ok(t) => subtype_(report, gamma, env, t, t2, depth, trail),
+                Err(e) => Err(e),
+            },
+            (_, Var(id)) => match env.rec_find_type_with_depth(id, depth) {
+                Ok(t) => subtype_(report, gamma, env, t1, t, depth, trail),
+                Err(e) => Err(e),
+            },
             (Knot(id), _) => subtype_(
                 report,
                 gamma,
@@ -718,20 +708,14 @@ fn equal_impl(
             return Ok(());
         }
         let res = match (t1.as_ref(), t2.as_ref()) {
-            (Var(id), _) => equal_impl(
-                gamma,
-                env,
-                env.rec_find_type_with_depth(id, depth).unwrap(),
-                t2,
-                depth,
-            ),
-            (_, Var(id)) => equal_impl(
-                gamma,
-                env,
-                t1,
-                env.rec_find_type_with_depth(id, depth).unwrap(),
-                depth,
-            ),
+            (Var(id), _) => match env.rec_find_type_with_depth(id, depth) {
+                Ok(t) => equal_impl(gamma, env, t, t2, depth),
+                Err(e) => Err(e),
+            },
+            (_, Var(id)) => match env.rec_find_type_with_depth(id, depth) {
+                Ok(t) => equal_impl(gamma, env, t1, t, depth),
+                Err(e) => Err(e),
+            },
             (Knot(id), _) => equal_impl(gamma, env, &find_type(id).unwrap(), t2, depth),
             (_, Knot(id)) => equal_impl(gamma, env, t1, &find_type(id).unwrap(), depth),
             (_, _) => unreachable!(),
